@@ -211,6 +211,17 @@ def rule_r1_rvalue(ck, prog, suffix):
                 ok = False
         ck.verdict(ok, 'C11.R1', f, 'rvalue-add-delegates-once', calls[0].n if calls else None,
                    'delegates once and returns that result' if ok else 'the rvalue Add does not delegate exactly once to Add(unique_ptr&) and return its result')
+        # ownership of a rejected element: the parameter is an rvalue reference, the caller has given the element up; whatever
+        # Add(unique_ptr&) left in it must be destroyed here (reset / going out of scope by move), never released into nothing
+        pid = f.params[0]['id']
+        rel = [n for n in f.nodes if n['k'] == 'call' and strip_targs(n.get('c', '')).rsplit('::', 1)[-1] == 'release' and n.get('obj') is not None and
+               strip_casts(f, n['obj']).get('id') == pid]
+        pm = f.parent_map()
+        leaked = [n for n in rel if f.nodes[pm[n['i']]]['k'] in ('CompoundStmt', 'ExprWithCleanups', 'if', 'for', 'while') or
+                  (f.nodes[pm[n['i']]]['k'] == 'cast' and 'void' in (f.nodes[pm[n['i']]].get('t') or ''))] if rel else []
+        ck.verdict(not leaked, 'C11.R1', f, 'rvalue-add-rejected-element-destroyed', (leaked or [calls[0].n if calls else None])[0],
+                   'the rvalue Add never releases the element without an owner' if not leaked else
+                   'the rvalue Add calls release() on its argument and discards the pointer: an element rejected by a full buffer is neither queued, nor with the caller, nor destroyed (leak)')
 
 
 def rule_r2(ck, prog, suffix, g_add, rd_add, full_rel, f_add):
@@ -348,6 +359,22 @@ def rule_r4(ck, prog):
                      path=g.describe_path(g.path(g.entry, g.exit, avoid_edges=acq_edge) or []))
     else:
         ck.holds('C11.R4', f, 'lock-returns-only-acquired', rets[0].n if rets else None, 'every exit of lock() is behind an acquiring edge')
+    # once acquired, lock() returns: no further acquisition attempt (which would fail against itself for ever) is reachable
+    attempts = [p for p in g.points if p.n is not None and p.n['k'] == 'call' and
+                ((atomic_op(p.n) and atomic_op(p.n)[1] in ('exchange', 'compare_exchange_weak', 'compare_exchange_strong', 'test_and_set')) or
+                 qmatch(p.n.get('c', ''), 'SpinLockMutex::try_lock'))]
+    again = None
+    for p in g.points:
+        for (q, lab) in p.succ:
+            if acq_edge(p, q, lab):
+                r = g.reachable_from([q])
+                hit = [a for a in attempts if a.id in r]
+                if hit:
+                    again = (q, hit[0])
+    ck.verdict(again is None, 'C11.R4', f, 'lock-returns-once-acquired', again[1].n if again else (rets[0].n if rets else None),
+               'after an acquiring edge no further acquisition attempt is reachable' if again is None else
+               'after lock() has acquired the flag it can reach another acquisition attempt instead of returning: the waiter spins for ever on a lock it holds itself',
+               path=None if again is None else g.describe_path(g.path(again[0], again[1]) or []))
     # try_lock: false whenever its exchange found the flag set
     f = prog.function('SpinLockMutex::try_lock')
     ex = [n for n in f.nodes if atomic_op(n) and atomic_op(n)[1] == 'exchange']
@@ -376,10 +403,10 @@ def rule_r4(ck, prog):
 
 
 def run(ck, prog):
-    ck.doc('C11.R1', 'ownership typestate of Add/SwapIfNull/Swap/Reset and the rvalue wrapper', 10)
+    ck.doc('C11.R1', 'ownership typestate of Add/SwapIfNull/Swap/Reset and the rvalue wrapper', 11)
     ck.doc('C11.R2', 'guard agreement: fullness, capacity, slot index, tail advance, size', 7)
     ck.doc('C11.R3', 'minimum memory orders of the queue and the spin lock', 9)
-    ck.doc('C11.R4', 'spin lock: lock returns only when acquired; try_lock false on a held lock; unlock stores false', 3)
+    ck.doc('C11.R4', 'spin lock: lock returns only when acquired, and returns once acquired; try_lock false on a held lock; unlock stores false', 4)
     CB = 'sdk::common::CircularBuffer'
     with ck.canary('C11.R1'):
         for f in _lvalue_add(prog, 'canary::c11::BadBuffer'):
